@@ -574,3 +574,50 @@ Theorem C06_source_literals_tie_r3 :
      else COk ((if v <? 0 then 2 ^ (W P32 - 1) else 0) + cast_uint P32 a)).
 Proof. exact conv_params2_tie. Qed.
 Print Assumptions C06_source_literals_tie_r3.
+
+(** FBig<R,B> / Repr<B> ::to_f32 / to_f64 for bases other than 2 on the routes of convert_base that
+    are exact before rounding: B = 2^n (exponent multiplied by n), and a non-negative exponent up to
+    the regenerated THRESHOLD_SMALL_EXP for a base that is not a power of two (an integer: no range
+    condition).  The debug assertion of into_f32/f64_internal never fires on them. *)
+From Dashu Require Import Conv.ConvBaseProofs.
+
+Theorem C06_fbig_to_f64_pow2_base : forall m n s e, 1 < n -> s <> 0 ->
+  emin F64 + prec F64 - 1 < blen (Z.abs s) + e * n ->
+  fbig_to_float P64 (2 ^ n) m s e = Ok (to_float_spec F64 m s (e * n)).
+Proof. exact fbig_to_f64_pow2_base. Qed.
+Print Assumptions C06_fbig_to_f64_pow2_base.
+
+Theorem C06_fbig_to_f32_pow2_base : forall m n s e, 1 < n -> s <> 0 ->
+  emin F32 + prec F32 - 1 < blen (Z.abs s) + e * n ->
+  fbig_to_float P32 (2 ^ n) m s e = Ok (to_float_spec F32 m s (e * n)).
+Proof. exact fbig_to_f32_pow2_base. Qed.
+Print Assumptions C06_fbig_to_f32_pow2_base.
+
+Theorem C06_fbig_to_f64_nonneg_exp : forall B m s e, 2 < B -> ilog_exact2 B <= 1 -> s <> 0 ->
+  0 <= e <= nth 0 convert_small_exp_gen 0 ->
+  fbig_to_float P64 B m s e = Ok (to_float_spec F64 m (s * B ^ e) 0).
+Proof. exact fbig_to_f64_nonneg_exp. Qed.
+Print Assumptions C06_fbig_to_f64_nonneg_exp.
+
+Theorem C06_fbig_to_f32_nonneg_exp : forall B m s e, 2 < B -> ilog_exact2 B <= 1 -> s <> 0 ->
+  0 <= e <= nth 0 convert_small_exp_gen 0 ->
+  fbig_to_float P32 B m s e = Ok (to_float_spec F32 m (s * B ^ e) 0).
+Proof. exact fbig_to_f32_nonneg_exp. Qed.
+Print Assumptions C06_fbig_to_f32_nonneg_exp.
+
+(** to_f32_fast / to_f64_fast: a PROVED error bound for every numerator and positive denominator:
+    the approximate quotient man * 2^ex handed to encode lies within (-1, +4.5) units of its own
+    last place (man has 24/25 resp. 53/54 bits) of the exact |N| / D *)
+Theorem C06_fast_quotient_bound_f32 : forall N D, N <> 0 -> 0 < D ->
+  let '(man, ex) := fast_quotient P32 N D in
+  if 0 <=? ex then (2 * man - 9) * (D * 2 ^ ex) < 2 * Z.abs N < (2 * man + 2) * (D * 2 ^ ex)
+  else (2 * man - 9) * D < 2 * Z.abs N * 2 ^ (- ex) < (2 * man + 2) * D.
+Proof. exact fast_quotient_bound_f32. Qed.
+Print Assumptions C06_fast_quotient_bound_f32.
+
+Theorem C06_fast_quotient_bound_f64 : forall N D, N <> 0 -> 0 < D ->
+  let '(man, ex) := fast_quotient P64 N D in
+  if 0 <=? ex then (2 * man - 9) * (D * 2 ^ ex) < 2 * Z.abs N < (2 * man + 2) * (D * 2 ^ ex)
+  else (2 * man - 9) * D < 2 * Z.abs N * 2 ^ (- ex) < (2 * man + 2) * D.
+Proof. exact fast_quotient_bound_f64. Qed.
+Print Assumptions C06_fast_quotient_bound_f64.
